@@ -7,6 +7,7 @@ pub mod c20;
 pub mod c21;
 pub mod c23;
 pub mod c24;
+pub mod c25;
 pub mod c27;
 pub mod c28;
 pub mod c29;
@@ -40,6 +41,7 @@ pub fn dispatch(id: &str, args: &[String]) -> ! {
         "C26" => dirchecks::run("C26", args),
         "C23" => c23::run(args),
         "C24" => c24::run(args),
+        "C25" => c25::run(args),
         "C27" => c27::run(args),
         "C28" => c28::run(args),
         "C29" => c29::run(args),
